@@ -12,7 +12,7 @@ package engine
 //     c09Group: a copy of the ts-store branch of coordinator.ClusterShardMapping.CreateLogicalPlan) and a storage
 //     facade (c09Store) that hands out the shard under test.
 // (B) the same function applied by the harness to the rows the plain cursor (vShard.Dump) returns for the same
-//     time range, filtered by the harness for the field-filter variant.
+//     time range; for the field-filter variants to the rows of the engine's own plain statement with the same filter.
 // Layouts: all histories over the C09 alphabet up to the depth bound (c02-style explorer, no-op pruning).
 
 import (
